@@ -381,5 +381,5 @@ func TestC15(t *testing.T) {
 	if !requireHooks(t) {
 		return
 	}
-	ev.Check(t, "c15_pure", ev.N(2400, 60000), c15Gen, c15Run)
+	ev.Check(t, "c15_pure", ev.N(16000, 200000), c15Gen, c15Run)
 }
